@@ -12,6 +12,7 @@ GW_TRACE = {"kind": "trace", "spec": "TraceGateway", "module": "Gateway", "quick
 TOKEN_TRACE = {"kind": "trace", "spec": "TraceToken", "module": "Token", "quick": (8, 300), "thorough": (64, 800)}
 GAS_TRACE = {"kind": "trace", "spec": "TraceGas", "module": "GasService", "quick": (8, 300), "thorough": (64, 800)}
 ITS_TRACE = {"kind": "trace", "spec": "TraceITS", "module": "ITS", "quick": (8, 100), "thorough": (24, 300), "tlc_timeout": 3600}
+ITS_IND = {"kind": "apalache", "tiers": ["thorough"], "module": "ITSInd", "inv": "IndInv", "refute": "NotInvariant", "refute_init": "RefuteInit"}
 SMALL_TRACES = [dict(t, quick=(4, 120)) for t in (GW_TRACE, TOKEN_TRACE, GAS_TRACE)] + [dict(ITS_TRACE, quick=(4, 80))]
 
 SYSTEM_JOB = {"kind": "graph", "spec": "MC_System", "module": "System", "evkinds": GW_EVENTS + ITS_EVENTS,
@@ -481,8 +482,9 @@ PROPS = {
              "need": ["Mint/ok", "RemoveMinter/ok", "AddMinter/ok", "MintFrom/ok", "MintFrom/is_minter"], "control": zero_amount_control,
              "init_fields": ["meta"]},
             ITS_TRACE,
+            ITS_IND,
         ],
-        "level_text": "TLC proves write-once registry, roles after every deployment (service + designated minter only, initial supply credited, metadata as requested), 'taken ids refuse' and service-mintability on every transition of a finite instance (every supply x minter combination, boundary metadata, same salt / other deployer, canonical registrations, remote deploy messages that collide or not, an inbound transfer after every deployment); transitions are executed against the real service, which deploys the repository's pinned interchain_token.wasm; the binding derives every catalogue id through the contract, checks determinism, injectivity and chain-name sensitivity, that token_address(id) is the address derived from (service, id) and that the token reports that id.",
+        "level_text": "TLC proves write-once registry, roles after every deployment (service + designated minter only, initial supply credited, metadata as requested), 'taken ids refuse' and service-mintability on every transition of a finite instance (every supply x minter combination, boundary metadata, same salt / other deployer, canonical registrations, remote deploy messages that collide or not, an inbound transfer after every deployment); transitions are executed against the real service, which deploys the repository's pinned interchain_token.wasm; the binding derives every catalogue id through the contract, checks determinism, injectivity and chain-name sensitivity, that token_address(id) is the address derived from (service, id) and that the token reports that id. Thorough additionally discharges, with Apalache, an inductive invariant of the service's design over unbounded amounts, message ids and histories (spec/apalache/ITSInd.tla: write-once registry with distinct token addresses, custody = locked - released >= 0, native supply = minted - burned >= 0, every message acts at most once and only when approved, from a trusted origin, for a registered token).",
         "rule": "cases = transitions of the bounded TLC instance replayed against the contracts; distinct = distinct (abstract pre-state, action) pairs",
         "assumptions": ["soroban-env-host test mode implements on-chain semantics", "service-deployed tokens run the pinned interchain_token.wasm (no wasm32 target offline)", "bounds: 3 local ids, 2 canonical tokens, 1 remote id"],
     },
@@ -500,8 +502,9 @@ PROPS = {
              "need": C04_NEED, "control": conforming_delivery_control, "max_len": 40, "workers": 16, "tlc_timeout": 3600},
             dict(SYSTEM_JOB, tiers=["thorough"]),
             ITS_TRACE,
+            ITS_IND,
         ],
-        "level_text": "TLC proves gate (every guard held in the pre-state of an executed delivery), exactly-once, 'rejected deliveries leave balances, registrations and the approval record untouched' and acceptance of conforming deliveries on every transition of a finite instance containing one conforming delivery of each kind and every single deviation the statement lists (approval-table deviations under tracked ids, payload / chain / address deviations under fresh ids), over trusted-chain histories; whether a mutated payload decodes is decided by Abi!Decode.  All transitions are executed against the real service, gateway, tokens and receiver contracts, with payload bytes built by the harness's own encoder.",
+        "level_text": "TLC proves gate (every guard held in the pre-state of an executed delivery), exactly-once, 'rejected deliveries leave balances, registrations and the approval record untouched' and acceptance of conforming deliveries on every transition of a finite instance containing one conforming delivery of each kind and every single deviation the statement lists (approval-table deviations under tracked ids, payload / chain / address deviations under fresh ids), over trusted-chain histories; whether a mutated payload decodes is decided by Abi!Decode.  All transitions are executed against the real service, gateway, tokens and receiver contracts, with payload bytes built by the harness's own encoder. Thorough additionally discharges, with Apalache, an inductive invariant of the service's design over unbounded amounts, message ids and histories (spec/apalache/ITSInd.tla: write-once registry with distinct token addresses, custody = locked - released >= 0, native supply = minted - burned >= 0, every message acts at most once and only when approved, from a trusted origin, for a registered token).",
         "rule": "cases = transitions of the bounded TLC instance replayed against the contracts; distinct = distinct (abstract pre-state, action) pairs",
         "assumptions": ["soroban-env-host test mode implements on-chain semantics", "service-deployed tokens run the pinned interchain_token.wasm", "the harness's own ABI codec is cross-validated against Abi.tla by the C10 check"],
     },
@@ -521,8 +524,9 @@ PROPS = {
              "need": C05_NEED, "control": other_amount_control, "max_len": 40, "workers": 16},
             bridge_job(["InterchainTransfer/ok", "Relay/ok", "Relay/registered", "Relay/origin_trusted", "DeployRemoteInterchainToken/ok", "DeployRemoteCanonical/ok"], other_amount_control),
             ITS_TRACE,
+            ITS_IND,
         ],
-        "level_text": "TLC proves custody = locked - released >= 0 with the canonical token's supply conserved, service-deployed supply changing only by outbound burns, inbound mints, the initial supply and minters' own mints, exact debit / gas / announcement on every successful outbound transfer (trusted destination, positive amount), exact credit inbound, and the frame rule, on every transition of a finite instance (all interleavings; every outbound transfer costs gas); the transitions are executed against the real service, gateway, gas service, a Stellar asset contract and the pinned interchain token; the announced payload bytes are decoded by the harness's own codec and compared field by field.  Two deployments joined by the hub (spec/Bridge.tla, MC_Bridge): value conserved across chains, remote tokens carry the home side's id and metadata; the raw bytes one deployment announced are rewrapped as the hub does and handed to the other deployment.",
+        "level_text": "TLC proves custody = locked - released >= 0 with the canonical token's supply conserved, service-deployed supply changing only by outbound burns, inbound mints, the initial supply and minters' own mints, exact debit / gas / announcement on every successful outbound transfer (trusted destination, positive amount), exact credit inbound, and the frame rule, on every transition of a finite instance (all interleavings; every outbound transfer costs gas); the transitions are executed against the real service, gateway, gas service, a Stellar asset contract and the pinned interchain token; the announced payload bytes are decoded by the harness's own codec and compared field by field.  Two deployments joined by the hub (spec/Bridge.tla, MC_Bridge): value conserved across chains, remote tokens carry the home side's id and metadata; the raw bytes one deployment announced are rewrapped as the hub does and handed to the other deployment. Thorough additionally discharges, with Apalache, an inductive invariant of the service's design over unbounded amounts, message ids and histories (spec/apalache/ITSInd.tla: write-once registry with distinct token addresses, custody = locked - released >= 0, native supply = minted - burned >= 0, every message acts at most once and only when approved, from a trusted origin, for a registered token).",
         "rule": "cases = transitions of the bounded TLC instance replayed against the contracts; distinct = distinct (abstract pre-state, action) pairs",
         "assumptions": ["soroban-env-host test mode implements on-chain semantics", "the harness's own ABI codec is cross-validated against Abi.tla by the C10 check", "bounds: 2 users, 2-3 tokens, amounts -1..3, gas budget 2-4 units"],
     },
